@@ -9,9 +9,9 @@
    that are not candidates of the rest (the way every tie-breaking / multi-round rule composes its answer),
    and it implies [sel_shape]. *)
 From Coq Require Import ZArith QArith List Bool Lia Permutation Arith.
-From VL Require Import Prelude.PyDict Model.GetNBest Model.Condorcet Proofs.Dict_proofs Proofs.GetNBest_proofs
+From VL Require Import Prelude.PyDict Model.GetNBest Model.Convert Model.Cardinal Model.Condorcet Proofs.Dict_proofs Proofs.GetNBest_proofs
      Proofs.QOrd Proofs.HA_proofs Proofs.Condorcet_proofs Proofs.Shape_proofs Proofs.Smith_proofs Proofs.Minimax_proofs
-     Proofs.Schulze_proofs Proofs.Kemeny_proofs Proofs.RankedPairs_proofs.
+     Proofs.Schulze_proofs Proofs.Kemeny_proofs Proofs.RankedPairs_proofs Proofs.Cardinal_proofs Proofs.MJ_proofs Proofs.JR_proofs.
 Import ListNotations.
 Close Scope Q_scope.
 Close Scope Z_scope.
@@ -347,4 +347,148 @@ Theorem ranked_pairs_nform (s : Condorcet.scorer) (v : pvotes) n r : 2 <= length
 Proof.
   intros H2 Hn H. destruct (ranked_pairs_ranking v s H2 n) as (p & Hr & Hp & _). rewrite Hr in H. injection H as <-.
   apply perm_prefix_nform; [apply candidates_NoDup|exact Hp|exact Hn].
+Qed.
+
+(* ================================================================ score voting *)
+(* the candidates of a score profile: the keys of the per-candidate score counts, in order of first appearance *)
+Definition score_cands (votes : sprofile) : list C := map fst (raw_scores votes).
+
+Lemma corrected_scores_keys cf votes sc : corrected_scores cf votes = inl sc -> map fst sc = score_cands votes.
+Proof. unfold corrected_scores. intros H. apply sequence_keys in H. rewrite H, map_map. reflexivity. Qed.
+
+Theorem score_nform cf votes n r : 1 <= n <= length (score_cands votes) -> score_voting cf votes n = inl r ->
+  nform (score_cands votes) n r.
+Proof.
+  intros Hn. unfold score_voting, score_to_simple.
+  destruct (corrected_scores cf votes) as [sc|e] eqn:Ec; [|discriminate].
+  destruct (aggregate (sc_fn cf) sc) as [agg|e] eqn:Ea; [|discriminate]. intros [= <-].
+  pose proof (aggregate_keys _ _ _ Ea) as Hk. rewrite (corrected_scores_keys _ _ _ Ec) in Hk. rewrite <- Hk.
+  apply (gnb_nform Qle_bool Qle_bool_total Qle_bool_trans).
+  - rewrite <- (map_length fst agg), Hk. exact Hn.
+  - rewrite Hk. apply raw_scores_nodup.
+Qed.
+
+(* ================================================================ majority judgment *)
+Lemma filter_keys_eq {X} (f : C -> bool) (l : list (C * X)) : map fst (filter (fun cd => f (fst cd)) l) = filter f (map fst l).
+Proof. induction l as [|[c x] l IH]; simpl; [reflexivity|]. destruct (f c); simpl; rewrite IH; reflexivity. Qed.
+
+Lemma count_tie_nf (e T : list C) k : count_tie (map Cand e ++ repeat (TieR T) k) = k.
+Proof.
+  unfold count_tie. rewrite filter_app, app_length.
+  assert (H1 : filter (fun r : res C => match r with TieR _ => true | Cand _ => false end) (map Cand e) = []).
+  { induction e as [|x l IHl]; [reflexivity|exact IHl]. }
+  assert (H2 : filter (fun r : res C => match r with TieR _ => true | Cand _ => false end) (repeat (TieR T) k) = repeat (TieR T) k).
+  { induction k as [|k IHk]; [reflexivity|]. simpl. f_equal. exact IHk. }
+  rewrite H1, H2, repeat_length. reflexivity.
+Qed.
+Lemma count_cand_nf (e T : list C) k :
+  length (filter (fun r : res C => match r with Cand _ => true | TieR _ => false end) (map Cand e ++ repeat (TieR T) k)) = length e.
+Proof. fold (res_untied (map Cand e ++ repeat (TieR T) k)). rewrite res_untied_nf, map_length. reflexivity. Qed.
+Lemma firstn_nf (e T : list C) k : firstn (length e) (map Cand e ++ repeat (TieR T) k) = map Cand e.
+Proof.
+  rewrite firstn_app, map_length, Nat.sub_diag, firstn_O, app_nil_r.
+  rewrite <- (map_length Cand e) at 1. apply firstn_all.
+Qed.
+Lemma plain_cands_eq (e : list C) : flat_map (fun r : res C => match r with Cand c => [c] | TieR _ => [] end) (map Cand e) = e.
+Proof. induction e as [|x e IH]; simpl; [reflexivity|]. rewrite IH. reflexivity. Qed.
+Lemma last_tie_plain (e : list C) : last_tie (map Cand e) = None.
+Proof. unfold last_tie. rewrite <- map_rev. destruct (rev e); reflexivity. Qed.
+
+(* the members of a tie T among the keys of [sub]: at least as many entries as T has members *)
+Lemma level_sub {X} (sub : list (C * X)) (T : list C) : NoDup T -> incl T (map fst sub) ->
+  length T <= length (filter (fun cd => cmem (fst cd) T) sub).
+Proof.
+  intros Hn Hi. rewrite <- (map_length fst (filter _ sub)). apply NoDup_incl_length; [exact Hn|].
+  intros x Hx. rewrite (filter_keys_eq (fun c => cmem c T)). apply filter_In. split; [apply Hi, Hx|apply Shape_proofs.cmem_In, Hx].
+Qed.
+
+Lemma mj_plus_nform sub k r : NoDup (map fst sub) -> 1 <= k <= length sub -> mj_plus sub k = inl r -> nform (map fst sub) k r.
+Proof.
+  intros Hn Hk. unfold mj_plus. destruct sub as [|[c0 d0] sub'] eqn:Es; [discriminate|]. rewrite <- Es in *.
+  destruct (aggregate_one FMedianLow d0) as [med|e]; [|discriminate]. intros [= <-].
+  set (l := map (fun cd : C * cscores => (fst cd, inject_Z (counts_over (snd cd) med))) sub).
+  assert (Hl : map fst l = map fst sub) by (unfold l; rewrite map_map; reflexivity).
+  rewrite <- Hl. apply (gnb_nform Qle_bool Qle_bool_total Qle_bool_trans); [|rewrite Hl; exact Hn].
+  unfold l. rewrite map_length. exact Hk.
+Qed.
+
+Lemma mj_default_nform : forall fuel sub k r, NoDup (map fst sub) -> 1 <= k <= length sub ->
+  mj_default fuel sub k = inl r -> nform (map fst sub) k r.
+Proof.
+  induction fuel as [|f IH]; intros sub k r Hn Hk; [discriminate|]. cbn [mj_default]. cbv zeta.
+  destruct (fold_left Z.max (map (fun cd : C * cscores => cs_total (snd cd)) sub) 0%Z <=? 0)%Z; [discriminate|].
+  destruct (aggregate FMedianLow sub) as [medians|e0] eqn:Ea; [|discriminate].
+  pose proof (aggregate_keys _ _ _ Ea) as Hkeys.
+  assert (Hb : nform (map fst sub) k (get_n_best Qle_bool medians k)).
+  { rewrite <- Hkeys. apply (gnb_nform Qle_bool Qle_bool_total Qle_bool_trans); [|rewrite Hkeys; exact Hn].
+    rewrite <- (map_length fst medians), Hkeys, map_length. exact Hk. }
+  destruct (Nat.eqb (count_tie (get_n_best Qle_bool medians k)) 0) eqn:Ect; [intros [= <-]; exact Hb|].
+  destruct Hb as (e & T & k' & Hr & Hlen & Hk' & Hnd & Hincl). rewrite Hr in Ect |- *. rewrite count_tie_nf in Ect.
+  apply Nat.eqb_neq in Ect. rewrite count_cand_nf.
+  destruct (nodup_app_inv _ _ Hnd) as (HndE & HndT & Hdis).
+  assert (HiT : incl T (map fst sub)) by (intros x Hx; apply Hincl, in_or_app; right; exact Hx).
+  assert (HiE : incl e (map fst sub)) by (intros x Hx; apply Hincl, in_or_app; left; exact Hx).
+  destruct (Nat.ltb 0 (length e)) eqn:El.
+  - rewrite firstn_nf, plain_cands_eq.
+    set (sub' := filter (fun cd : C * cscores => negb (cmem (fst cd) e)) sub).
+    destruct (mj_default f sub' (k - length e)) as [r'|e1] eqn:Er; [|discriminate]. intros [= <-].
+    assert (Hkeys' : map fst sub' = filter (fun c => negb (cmem c e)) (map fst sub)) by apply (filter_keys_eq (fun c => negb (cmem c e))).
+    replace (k - length e) with k' in Er by lia.
+    assert (Hlt : length T <= length sub').
+    { rewrite <- (map_length fst sub'). apply NoDup_incl_length; [exact HndT|]. intros x Hx. rewrite Hkeys'. apply filter_In.
+      split; [apply HiT, Hx|]. apply negb_true_iff, not_true_iff_false. intros Hc. apply Shape_proofs.cmem_In in Hc. exact (Hdis x Hc Hx). }
+    rewrite <- Hlen. apply (nform_prefix (map fst sub) (map fst sub')); [exact HndE|exact HiE| | |].
+    + intros x Hx. rewrite Hkeys' in Hx. apply filter_In in Hx. tauto.
+    + intros x Hx Hx'. rewrite Hkeys' in Hx'. apply filter_In in Hx'. destruct Hx' as [_ Hx'].
+      apply negb_true_iff in Hx'. apply Shape_proofs.cmem_In in Hx. congruence.
+    + apply (IH sub' k' r'); [rewrite Hkeys'; apply NoDup_filter, Hn|lia|exact Er].
+  - apply Nat.ltb_ge in El. assert (e = []) by (destruct e; [reflexivity|simpl in El; lia]). subst e. simpl in Hlen. subst k'.
+    simpl app. destruct k as [|k0]; [lia|]. cbn [repeat].
+    set (sub1 := filter (fun cd : C * cscores => cmem (fst cd) T) sub).
+    intros Hrec. apply IH in Hrec.
+    + rewrite map_map in Hrec. cbn [fst] in Hrec. apply (nform_incl (map fst sub1)); [|exact Hrec].
+      intros x Hx. eapply filter_keys_incl. exact Hx.
+    + rewrite map_map. cbn [fst]. apply filter_keys_NoDup_gen, Hn.
+    + rewrite map_length. pose proof (level_sub sub T HndT HiT). fold sub1 in H. lia.
+Qed.
+
+Theorem mj_nform plus cf votes n r : 1 <= n <= length (score_cands votes) -> majority_judgment plus cf votes n = inl r ->
+  nform (score_cands votes) n r.
+Proof.
+  intros Hn. unfold majority_judgment.
+  destruct (corrected_scores cf votes) as [sc|e0] eqn:Ec; [|discriminate].
+  destruct (aggregate FMedianLow sc) as [med|e0] eqn:Ea; [|discriminate].
+  pose proof (aggregate_keys _ _ _ Ea) as Hk. pose proof (corrected_scores_keys _ _ _ Ec) as Hsc.
+  pose proof (corrected_scores_nodup _ _ _ Ec) as Hscn.
+  assert (Hb : nform (map fst sc) n (get_n_best Qle_bool med n)).
+  { rewrite <- Hk. apply (gnb_nform Qle_bool Qle_bool_total Qle_bool_trans); [|rewrite Hk; exact Hscn].
+    rewrite <- (map_length fst med), Hk, Hsc. exact Hn. }
+  rewrite <- Hsc.
+  destruct Hb as (e & T & k & Hr & Hlen & Hk' & Hnd & Hincl). rewrite Hr.
+  destruct k as [|k0].
+  - simpl repeat. rewrite app_nil_r, last_tie_plain. intros [= <-].
+    exists e, [], 0. rewrite !app_nil_r. simpl. split; [reflexivity|]. split; [exact Hlen|]. split; [left; reflexivity|].
+    destruct (nodup_app_inv _ _ Hnd) as (HndE & _ & _). split; [exact HndE|]. intros x Hx. apply Hincl, in_or_app. left. exact Hx.
+  - rewrite last_tie_app, count_tie_nf.
+    destruct (nodup_app_inv _ _ Hnd) as (HndE & HndT & Hdis).
+    assert (HiT : incl T (map fst sc)) by (intros x Hx; apply Hincl, in_or_app; right; exact Hx).
+    assert (HiE : incl e (map fst sc)) by (intros x Hx; apply Hincl, in_or_app; left; exact Hx).
+    set (sub := filter (fun cd : C * cscores => cmem (fst cd) T) sc).
+    assert (Hsn : NoDup (map fst sub)) by (apply filter_keys_NoDup_gen, Hscn).
+    assert (Hsl : 1 <= S k0 <= length sub) by (pose proof (level_sub sc T HndT HiT) as H; fold sub in H; lia).
+    assert (Hsk : forall x, In x (map fst sub) -> In x T /\ In x (map fst sc)).
+    { intros x Hx. unfold sub in Hx. rewrite (filter_keys_eq (fun c => cmem c T)) in Hx. apply filter_In in Hx.
+      destruct Hx as [H1 H2]. apply Shape_proofs.cmem_In in H2. tauto. }
+    replace (length (map Cand e ++ repeat (TieR T) (S k0)) - S k0) with (length e)
+      by (rewrite app_length, map_length, repeat_length; lia).
+    rewrite firstn_nf.
+    assert (Hfin : forall r', nform (map fst sub) (S k0) r' -> nform (map fst sc) n (map Cand e ++ r')).
+    { intros r' Hr'. rewrite <- Hlen. apply (nform_prefix (map fst sc) (map fst sub)); [exact HndE|exact HiE| | |exact Hr'].
+      - intros x Hx. apply Hsk, Hx.
+      - intros x Hx Hx'. apply Hsk in Hx'. exact (Hdis x Hx (proj1 Hx')). }
+    destruct plus.
+    + destruct (mj_plus sub (S k0)) as [r'|e1] eqn:Er; [|discriminate]. intros [= <-].
+      apply Hfin. apply mj_plus_nform; assumption.
+    + match goal with |- context [mj_default ?fu sub (S k0)] => destruct (mj_default fu sub (S k0)) as [r'|e1] eqn:Er end; [|discriminate].
+      intros [= <-]. apply Hfin. eapply mj_default_nform; eassumption.
 Qed.
